@@ -16,9 +16,6 @@ From RecordUpdate Require Import RecordSet.
 Import RecordSetNotations.
 Open Scope N_scope.
 
-Definition arg_complete (a : arg) : Prop :=
-  a_action a <> None /\ a_num a <> None /\ a_vp a <> None.
-
 (** record-update computation rules *)
 Lemma mt_set st m : mt (st <| mt := m |>) = m. Proof. reflexivity. Qed.
 Lemma cur_set_mt st m : cur_idx (st <| mt := m |>) = cur_idx st. Proof. reflexivity. Qed.
@@ -282,4 +279,659 @@ Proof.
   destruct (is_set s_dont_delimit_trailing c && match ti with Some 0 => true | _ => false end); [eexists; reflexivity|].
   apply delimit_go_some. apply encode_utf8_nonempty.
 Qed.
+
+(** ** [react_core] *)
+Definition pending_of (st : ps) := mt_pending (mt st).
+
+Lemma G_set_mt st m : MG m (cur_idx st) -> fs_at st = None -> fs_skip st = 0 -> G (st <| mt := m |>).
+Proof. intros H1 H2 H3. repeat split; autorewrite with ps; try apply H1; assumption. Qed.
+
+Lemma react_core_safe idn s a raw ti st : In a (c_args c) -> G st ->
+  safe (fun x => G (fst x) /\ snd x = PRValuesDone /\ pending_of (fst x) = pending_of st) G
+       (react_core c idn s a raw ti st).
+Proof.
+  intros Hin HG. unfold react_core.
+  eapply safe_bind with (Q1 := fun _ => True).
+  { destruct (is_cmdline s); [|exact I].
+    eapply safe_weaken; [apply verify_num_args_safe; exact Hin|auto|intros s0 ->; exact HG]. }
+  intros _ _.
+  destruct (match raw with [] => if negb (is_nil (a_default_missing a)) then (a_default_missing a, None) else (raw, ti)
+                         | _ => (raw, ti) end) as [raw1 ti1].
+  destruct (delimit_some a raw1 ti1) as [raw2 Hd]. rewrite Hd. cbn [expect rbind].
+  (* the common tail: start_custom_arg then push_arg_values *)
+  assert (Tail : forall raw' st1, G st1 -> pending_of st1 = pending_of st ->
+     safe (fun x => G (fst x) /\ snd x = PRValuesDone /\ pending_of (fst x) = pending_of st) G
+       (do m2 <- start_custom_arg c a s (mt st1);
+        do st' <- push_arg_values c a raw' (st1 <| mt := m2 |>);
+        ROk (st', PRValuesDone))).
+  { intros raw' st1 [HM [Hfa Hfs]] Hpe.
+    pose proof (start_custom_arg_safe a s (mt st1) (cur_idx st1) Hin HM) as Hs.
+    destruct (start_custom_arg c a s (mt st1)) as [m2|e0 s0|site]; cbn in Hs; try contradiction.
+    destruct Hs as [HM2 [Hp2 Ho2]]. cbn [rbind].
+    eapply safe_bind; [apply (push_arg_values_safe a Hin raw' (st1 <| mt := m2 |>))| ].
+    - apply G_set_mt; assumption.
+    - autorewrite with ps. exact Ho2.
+    - intros st' [HG' Hp']. cbn. split; [exact HG'|split; [reflexivity|]].
+      unfold pending_of in *. rewrite Hp'. autorewrite with ps. congruence. }
+  assert (SetLike : forall raw' (bump : bool) st1, G st1 -> pending_of st1 = pending_of st ->
+     safe (fun x => G (fst x) /\ snd x = PRValuesDone /\ pending_of (fst x) = pending_of st) G
+       (let st2 := if bump && is_cmdline s && is_flag_ident idn then ps_bump st1 else st1 in
+        let '(m1, removed) := mt_remove (mt st2) (a_id a) in
+        let st3 := st2 <| mt := m1 |> in
+        if removed && negb (is_set s_args_override_self c || mem_id (a_id a) (a_overrides a))
+        then RErr (mkerr c EArgumentConflict (a_id a)) st3
+        else do m2 <- start_custom_arg c a s m1;
+             do st' <- push_arg_values c a raw' (st3 <| mt := m2 |>);
+             ROk (st', PRValuesDone))).
+  { intros raw' bump st1 HG1 Hpe. cbn zeta.
+    set (st2 := if bump && is_cmdline s && is_flag_ident idn then ps_bump st1 else st1).
+    assert (HG2 : G st2 /\ pending_of st2 = pending_of st1).
+    { subst st2. destruct (bump && is_cmdline s && is_flag_ident idn); [split; [apply G_bump; exact HG1|reflexivity]|split; [exact HG1|reflexivity]]. }
+    destruct HG2 as [[HM2 [Hfa2 Hfs2]] Hp2].
+    pose proof (MG_remove (mt st2) (cur_idx st2) (a_id a) HM2) as [HM3 Hp3].
+    destruct (mt_remove (mt st2) (a_id a)) as [m1 removed] eqn:Er. cbn [fst] in HM3, Hp3.
+    assert (HG3 : G (st2 <| mt := m1 |>)) by (apply G_set_mt; assumption).
+    destruct (removed && negb (is_set s_args_override_self c || mem_id (a_id a) (a_overrides a))); [exact HG3|].
+    specialize (Tail raw' (st2 <| mt := m1 |>) HG3). autorewrite with ps in Tail. apply Tail.
+    unfold pending_of. autorewrite with ps. unfold pending_of in *. congruence. }
+  destruct (a_get_action a).
+  - apply (SetLike raw2 true st HG eq_refl).
+  - set (st1 := if is_cmdline s && is_flag_ident idn then ps_bump st else st).
+    assert (HG1 : G st1 /\ pending_of st1 = pending_of st).
+    { subst st1. destruct (is_cmdline s && is_flag_ident idn); [split; [apply G_bump; exact HG|reflexivity]|split; [exact HG|reflexivity]]. }
+    destruct HG1 as [HG1 Hp1]. apply (Tail raw2 st1 HG1 Hp1).
+  - apply (SetLike _ false st HG eq_refl).
+  - apply (SetLike _ false st HG eq_refl).
+  - destruct HG as [HM [Hfa Hfs]].
+    pose proof (MG_remove (mt st) (cur_idx st) (a_id a) HM) as [HM3 Hp3].
+    destruct (mt_remove (mt st) (a_id a)) as [m1 removed] eqn:Er. cbn [fst] in HM3, Hp3.
+    match goal with |- context [push_arg_values c a ?r _] => set (rawc := r) end.
+    assert (HG3 : G (st <| mt := m1 |>)) by (apply G_set_mt; assumption).
+    pose proof (Tail rawc (st <| mt := m1 |>) HG3) as T. autorewrite with ps in T. apply T.
+    unfold pending_of. autorewrite with ps. exact Hp3.
+  - exact HG.
+  - exact HG.
+  - exact HG.
+  - exact HG.
+Qed.
+
+(** ** [resolve_pending], [react] *)
+Lemma G_clear_pending st : G st -> G (st <| mt := (mt st) <| mt_pending := None |> |>).
+Proof.
+  intros [[Hp [He HP]] [Hfa Hfs]]. repeat split; autorewrite with ps; auto.
+  intros p Hp'. autorewrite with ps in Hp'. discriminate.
+Qed.
+
+Lemma resolve_pending_safe st : G st ->
+  safe (fun s => G s /\ pending_of s = None) G (resolve_pending c st).
+Proof.
+  intros HG. unfold resolve_pending. destruct (mt_pending (mt st)) as [p|] eqn:Ep; [|split; [exact HG|exact Ep]].
+  destruct HG as [[Hp [He HP]] [Hfa Hfs]].
+  destruct (Hp p Ep) as [a [Hfind _]]. rewrite Hfind. cbn [expect rbind].
+  destruct (find_arg_some _ _ _ Hfind) as [Hin _].
+  eapply safe_bind; [apply react_core_safe; [exact Hin|apply G_clear_pending; repeat split; assumption]|].
+  intros [st' pr] [HG' [_ Hpe]]. cbn in *. split; [exact HG'|]. rewrite Hpe. unfold pending_of. autorewrite with ps. reflexivity.
+Qed.
+
+Lemma react_safe idn s a raw ti st : In a (c_args c) -> G st ->
+  safe (fun x => G (fst x) /\ snd x = PRValuesDone /\ pending_of (fst x) = None) G (react c idn s a raw ti st).
+Proof.
+  intros Hin HG. unfold react. eapply safe_bind; [apply resolve_pending_safe; exact HG|].
+  intros st1 [HG1 Hp1]. eapply safe_weaken; [apply react_core_safe; eassumption| |auto].
+  intros x [H1 [H2 H3]]. split; [exact H1|split; [exact H2|congruence]].
+Qed.
+
+Lemma resolve_pending_ignore_safe st : G st ->
+  safe (fun s => G s) G (resolve_pending_ignore c st).
+Proof.
+  intros HG. unfold resolve_pending_ignore. pose proof (resolve_pending_safe st HG) as H.
+  destruct (resolve_pending c st); cbn in *; [apply H|exact H|exact H].
+Qed.
+
+(** ** results of the option/flag parsers *)
+Definition pend_is (st : ps) (i : id) : Prop := exists p, pending_of st = Some p /\ p_id p = i.
+Definition sub_findable (n : bytes) : Prop := exists sc, find_subcommand c n = Some sc.
+
+Definition flag_res (st : ps) (x : ps * presult * bool) : Prop :=
+  let '(st1, pr, _) := x in
+  G st1 /\
+  match pr with
+  | PROpt i => pend_is st1 i
+  | PRFlagSub n => sub_findable n /\ fs_at st1 = None
+  | PRMaybeHyphen | PRNoArg => st1 = st
+  | PRAttachedNotConsumed => False
+  | _ => True
+  end.
+
+(** ** [parse_opt_value] *)
+Lemma pending_values_push_new m i idn tr v : mt_pending m = None ->
+  pending_values_push m i idn tr v =
+  Some (m <| mt_pending := Some (mkPending i idn (match v with Some x => [x] | None => [] end)
+                                  (if tr then Some 0 else None)) |>).
+Proof.
+  intros H. unfold pending_values_push. rewrite H. cbn [p_id p_ident p_raw p_trailing_idx].
+  rewrite beq_refl. cbn [negb].
+  replace (is_some idn && negb (ident_eqb idn idn)) with false
+    by (destruct idn as [[]|]; reflexivity).
+  destruct tr; destruct v; reflexivity.
+Qed.
+
+Lemma G_new_pending st p a : G st -> find_arg c (p_id p) = Some a ->
+  (p_ident p = Some IIndex \/ a_is_positional a = false) ->
+  G (st <| mt := (mt st) <| mt_pending := Some p |> |>).
+Proof.
+  intros [[Hp [He HP]] [Hfa Hfs]] Hf Hi. repeat split; autorewrite with ps; auto.
+  intros p' Hp'. autorewrite with ps in Hp'. inversion Hp'; subst. exists a; split; assumption.
+Qed.
+
+Lemma parse_opt_value_safe idn attached a has_eq st :
+  In a (c_args c) -> a_is_positional a = false -> G st ->
+  safe (fun x => G (fst x) /\
+                 match snd x with
+                 | PROpt i => pend_is (fst x) i
+                 | PRValuesDone => True
+                 | PRAttachedNotConsumed => attached <> None /\ a_req_eq a = true /\ has_eq = false
+                 | PREqualsNotProvided _ => True
+                 | _ => False end) G
+       (parse_opt_value c idn attached a has_eq st).
+Proof.
+  intros Hin Hnp HG. unfold parse_opt_value.
+  destruct (a_req_eq a && negb has_eq) eqn:Ereq.
+  - destruct (W1 a Hin) as [_ [Hn _]]. destruct (a_num a) as [r|]; [|contradiction]. cbn [expect rbind].
+    destruct (vmin r =? 0).
+    + eapply safe_bind; [apply react_safe; eassumption|]. intros x [HGx _]. cbn. split; [exact HGx|].
+      destruct attached; cbn; [|exact I]. apply andb_prop in Ereq. destruct Ereq as [E1 E2].
+      repeat split; [discriminate|exact E1|destruct has_eq; [discriminate|reflexivity]].
+    + cbn. split; [exact HG|exact I].
+  - destruct attached as [v|].
+    + eapply safe_bind; [apply react_safe; eassumption|]. intros x [HGx _]. cbn. split; [exact HGx|exact I].
+    + eapply safe_bind; [apply resolve_pending_safe; exact HG|]. intros st1 [HG1 Hp1].
+      rewrite (pending_values_push_new _ _ _ _ _ Hp1). cbn [expect rbind]. cbn.
+      split.
+      * destruct (find_arg_of_in c a Hin) as [a' Ha']. rewrite (W3 a Hin) in Ha'. inversion Ha'; subst a'.
+        eapply G_new_pending; [exact HG1|cbn; apply W3; exact Hin|right; exact Hnp].
+      * eexists. unfold pending_of. autorewrite with ps. split; reflexivity.
+Qed.
+
+(** ** subcommand names that the lookups return are resolvable *)
+Lemma find_subcommand_name sc : In sc (c_subs c) -> sub_findable (c_name sc).
+Proof.
+  intros Hin. unfold sub_findable, find_subcommand.
+  destruct (List.find (fun s => aliases_to s (c_name sc)) (c_subs c)) as [s|] eqn:E; [exists s; reflexivity|].
+  exfalso. apply (List.find_none _ _ E) in Hin. unfold aliases_to in Hin. rewrite beq_refl in Hin. discriminate.
+Qed.
+
+Lemma first_unique_in {A} (l : list A) x : first_unique l = Some x -> In x l.
+Proof. destruct l as [|y [|z t]]; cbn; try discriminate. intros H; inversion H; left; reflexivity. Qed.
+
+Lemma filter_map_in {A B} (f : A -> option B) l y : In y (filter_map f l) -> exists x, In x l /\ f x = Some y.
+Proof.
+  induction l as [|a t IH]; cbn; [tauto|]. destruct (f a) as [b|] eqn:E.
+  - intros [<-|H]; [exists a; split; [left; reflexivity|exact E]|].
+    destruct (IH H) as [x [H1 H2]]. exists x; split; [right; exact H1|exact H2].
+  - intros H. destruct (IH H) as [x [H1 H2]]. exists x; split; [right; exact H1|exact H2].
+Qed.
+
+Lemma possible_long_flag_subcommand_findable l n : possible_long_flag_subcommand c l = Some n -> sub_findable n.
+Proof.
+  unfold possible_long_flag_subcommand.
+  set (inf := if is_set s_infer_sub c then _ else None).
+  assert (Hinf : forall n0, inf = Some n0 -> sub_findable n0).
+  { subst inf. destruct (is_set s_infer_sub c); [|discriminate]. intros n0 H.
+    apply first_unique_in, filter_map_in in H. destruct H as [sc [Hin H]].
+    destruct (c_long_flag sc); [|discriminate].
+    destruct (is_prefix l b); [inversion H; apply find_subcommand_name; exact Hin|].
+    destruct (existsb _ _); inversion H. apply find_subcommand_name; exact Hin. }
+  destruct inf as [n0|]; [intros H; inversion H; subst; apply Hinf; reflexivity|].
+  unfold find_long_subcmd. destruct (List.find _ (c_subs c)) as [sc|] eqn:E; cbn; [|discriminate].
+  intros H; inversion H. apply find_subcommand_name. apply (List.find_some _ _ E).
+Qed.
+
+Lemma possible_subcommand_findable tok vaf n : possible_subcommand c tok vaf = Some n -> sub_findable n.
+Proof.
+  unfold possible_subcommand. destruct (negb (utf8_valid tok)); [discriminate|].
+  destruct (is_set s_args_negate_subs c && vaf); [discriminate|].
+  set (inf := if is_set s_infer_sub c then _ else None).
+  assert (Hinf : forall n0, inf = Some n0 -> sub_findable n0).
+  { subst inf. destruct (is_set s_infer_sub c); [|discriminate]. intros n0 H.
+    apply first_unique_in, filter_map_in in H. destruct H as [sc [Hin H]].
+    destruct (is_prefix tok (c_name sc)); [inversion H; apply find_subcommand_name; exact Hin|].
+    (* an alias: find_subcommand resolves aliases too *)
+    apply List.find_some in H. destruct H as [Hal _].
+    unfold sub_findable, find_subcommand.
+    destruct (List.find (fun s => aliases_to s n0) (c_subs c)) as [s|] eqn:E; [exists s; reflexivity|].
+    exfalso. apply (List.find_none _ _ E) in Hin. unfold aliases_to in Hin.
+    apply Bool.orb_false_elim in Hin. destruct Hin as [_ Hin].
+    assert (existsb (beq n0) (all_aliases sc) = true) by (apply existsb_exists; exists n0; split; [exact Hal|apply beq_refl]).
+    congruence. }
+  destruct inf as [n0|]; [intros H; inversion H; subst; apply Hinf; reflexivity|].
+  destruct (find_subcommand c tok) as [sc|] eqn:E; cbn; [|discriminate].
+  intros H; inversion H. apply find_subcommand_name. unfold find_subcommand in E. apply (List.find_some _ _ E).
+Qed.
+
+(** ** [parse_long_arg] *)
+Definition LI (pst : pstate_t) (st : ps) : Prop :=
+  match pst with
+  | PSOpt i => pend_is st i
+  | PSPos i => exists a, find_arg c i = Some a
+  | PSValuesDone => True
+  end.
+
+Lemma state_arg_safe pst st : G st -> LI pst st ->
+  exists sa, state_arg c pst = ROk sa /\ (forall a, sa = Some a -> In a (c_args c)).
+Proof.
+  intros HG HL. destruct pst as [|i|i]; cbn.
+  - exists None. split; [reflexivity|discriminate].
+  - destruct HL as [p [Hp Hid]]. destruct HG as [[Hpe _] _]. destruct (Hpe p Hp) as [a [Hf _]].
+    rewrite Hid in Hf. rewrite Hf. cbn. exists (Some a). split; [reflexivity|].
+    intros a0 H; inversion H; subst. apply (find_arg_some _ _ _ Hf).
+  - destruct HL as [a Hf]. rewrite Hf. cbn. exists (Some a). split; [reflexivity|].
+    intros a0 H; inversion H; subst. apply (find_arg_some _ _ _ Hf).
+Qed.
+
+Lemma nonpos_of_index_none a : In a (c_args c) -> a_index a = None -> a_is_positional a = false.
+Proof.
+  intros Hin Hi. destruct (a_is_positional a) eqn:E; [|reflexivity].
+  exfalso. apply (W5 a Hin E). exact Hi.
+Qed.
+
+Lemma parse_long_arg_safe flag ok value pst pc vaf st :
+  G st -> LI pst st -> (flag = [] -> value <> None) ->
+  safe (fun x => flag_res st x /\ snd (fst x) <> PRNoArg) G (parse_long_arg c flag ok value pst pc vaf st).
+Proof.
+  intros HG HL Hflag. unfold parse_long_arg.
+  destruct (state_arg_safe pst st HG HL) as [sa [-> _]]. cbn [rbind].
+  destruct (match sa with Some a => a_hyphen a | None => false end);
+    [cbn; split; [split; [exact HG|reflexivity]|discriminate]|].
+  destruct (negb ok); [cbn; split; [split; [exact HG|exact I]|discriminate]|].
+  destruct (is_nil flag && negb (is_some value)) eqn:En.
+  { exfalso. apply andb_prop in En. destruct En as [E1 E2]. destruct flag; [|discriminate].
+    specialize (Hflag eq_refl). destruct value; [discriminate|contradiction]. }
+  set (found := match get_long c flag with Some a => Some a | None => _ end).
+  assert (Hfound : forall a, found = Some a -> In a (c_args c) /\ a_is_positional a = false).
+  { subst found. intros a. destruct (get_long c flag) as [a0|] eqn:Eg.
+    - intros H; inversion H; subst. destruct (get_long_in _ _ _ Eg) as [Hin Hi].
+      split; [exact Hin|apply nonpos_of_index_none; assumption].
+    - destruct (is_set s_infer_long c); [|discriminate]. intros H.
+      apply first_unique_in, filter_map_in in H. destruct H as [x [Hin H]].
+      destruct (a_is_positional x) eqn:Ep; [discriminate|].
+      assert (x = a).
+      { destruct (a_long x); [destruct (is_prefix flag b); [inversion H; reflexivity|]|];
+          destruct (existsb _ _); inversion H; reflexivity. }
+      subst. split; assumption. }
+  destruct found as [a|].
+  - destruct (Hfound a eq_refl) as [Hin Hnp].
+    destruct (a_takes_value a).
+    + eapply safe_bind; [apply parse_opt_value_safe; eassumption|].
+      intros [st1 pr] [HG1 Hpr]. cbn in *.
+      destruct pr; try contradiction; (split; [split; [exact HG1|try exact I; try exact Hpr]|discriminate]).
+      destruct Hpr as [H1 [_ H3]]. destruct value; [discriminate|contradiction].
+    + destruct value as [rest|]; [cbn; split; [split; [exact HG|exact I]|discriminate]|].
+      eapply safe_bind; [apply react_safe; eassumption|].
+      intros [st1 pr] [HG1 [Hpr _]]. cbn in *. subst pr. split; [split; [exact HG1|exact I]|discriminate].
+  - destruct (possible_long_flag_subcommand c flag) as [n|] eqn:Es.
+    + cbn. split; [|discriminate]. split; [exact HG|].
+      split; [eapply possible_long_flag_subcommand_findable; exact Es|apply HG].
+    + destruct (match get_pos c pc with Some a => a_hyphen a && negb (a_last a) | None => false end);
+        cbn; (split; [split; [exact HG|]|discriminate]); [reflexivity|exact I].
+Qed.
+
+(** ** the short cluster *)
+Lemma short_loop_safe : forall fuel r ret vaf st,
+  (length r < fuel)%nat -> G st ->
+  (ret = PRNoArg \/ ret = PRValuesDone) ->
+  safe (fun x => let '(st1, pr, _) := x in
+                 G st1 /\
+                 match pr with
+                 | PROpt i => pend_is st1 i
+                 | PRFlagSub n => False
+                 | PRMaybeHyphen => False
+                 | PRNoArg => st1 = st /\ ret = PRNoArg /\ r = []
+                 | PRAttachedNotConsumed | PRUnneeded _ _ => False
+                 | _ => True
+                 end) G
+       (short_loop c fuel r ret vaf st).
+Proof.
+  induction fuel as [|f IH]; intros r ret vaf st Hlen HG Hret; [lia|].
+  cbn [short_loop].
+  destruct (sf_next r) as [[[ch|rest] r']|] eqn:En.
+  - pose proof En as Hshr. apply sf_next_shrinks in Hshr.
+    destruct (get_short c ch) as [a|] eqn:Eg.
+    + destruct (get_short_in _ _ _ Eg) as [Hin Hi].
+      pose proof (nonpos_of_index_none a Hin Hi) as Hnp.
+      destruct (negb (a_takes_value a)).
+      * eapply safe_bind; [apply react_safe; eassumption|].
+        intros [st1 pr] [HG1 [Hpr _]]. cbn in Hpr, HG1. subst pr. cbn [fst snd].
+        eapply safe_weaken; [apply IH; [lia|exact HG1|right; reflexivity]| |auto].
+        intros [[st2 pr2] v2] [HG2 H2]. split; [exact HG2|].
+        destruct pr2; try exact H2; try exact I. destruct H2 as [_ [H2 _]]. discriminate.
+      * set (val := match r' with [] => None | _ => Some r' end).
+        destruct (match val with Some (61 :: v) => (Some v, true) | _ => (val, false) end) as [val' has_eq] eqn:Ev.
+        eapply safe_bind; [apply parse_opt_value_safe; eassumption|].
+        intros [st1 pr] [HG1 Hpr]. cbn [fst snd] in *.
+        destruct pr; try contradiction; cbn.
+        -- split; [exact HG1|exact Hpr].
+        -- split; [exact HG1|exact I].
+        -- (* attached value not consumed: go on with the rest of the cluster *)
+           destruct Hpr as [Hatt _].
+           assert (Hr' : r' <> []).
+           { subst val. destruct r'; [|discriminate]. inversion Ev; subst. contradiction. }
+           eapply safe_weaken; [apply IH; [lia|exact HG1|exact Hret]| |auto].
+           intros [[st2 pr2] v2] [HG2 H2]. split; [exact HG2|].
+           destruct pr2; try exact H2; try exact I. destruct H2 as [_ [_ H2]]. contradiction.
+        -- split; [exact HG1|exact I].
+    + rewrite W4. cbn. split; [exact HG|exact I].
+  - cbn. split; [exact HG|exact I].
+  - cbn. split; [exact HG|]. destruct Hret as [->| ->]; [|exact I].
+    split; [reflexivity|split; [reflexivity|]]. unfold sf_next in En. destruct r; [reflexivity|].
+    destruct (utf8_step (n :: r)) as [[? ?]|]; discriminate.
+Qed.
+
+(** ** [parse_short_arg] *)
+Lemma parse_short_arg_safe r pst pc vaf st : r <> [] -> G st -> LI pst st ->
+  safe (fun x => let '(st1, pr, _) := x in
+                 G st1 /\
+                 match pr with
+                 | PROpt i => pend_is st1 i
+                 | PRMaybeHyphen => st1 = st
+                 | PRFlagSub _ | PRNoArg | PRAttachedNotConsumed | PRUnneeded _ _ => False
+                 | _ => True
+                 end) G
+       (parse_short_arg c r pst pc vaf st).
+Proof.
+  intros Hr HG HL. unfold parse_short_arg.
+  destruct (state_arg_safe pst st HG HL) as [sa [-> _]]. cbn [rbind].
+  destruct (match sa with Some a => a_hyphen a || (a_negnum a && sf_is_negative_number r) | None => false end);
+    [cbn; split; [exact HG|reflexivity]|].
+  destruct (match get_pos c pc with Some a => a_negnum a | None => false end && sf_is_negative_number r);
+    [cbn; split; [exact HG|reflexivity]|].
+  destruct (match get_pos c pc with Some a => a_hyphen a && negb (a_last a) | None => false end
+            && sf_any_unknown c (S (length r)) r);
+    [cbn; split; [exact HG|reflexivity]|].
+  destruct HG as [HM [Hfa Hfs]]. rewrite Hfs. cbn [N.min N.to_nat sf_advance_by expect rbind].
+  replace (N.to_nat (N.min 0 (N.of_nat (S (length r))))) with O by lia. cbn [sf_advance_by expect rbind].
+  assert (HG0 : G (st <| fs_skip := 0 |>)).
+  { repeat split; try apply HM; try exact Hfa. }
+  assert (Hst : st <| fs_skip := 0 |> = st).
+  { destruct st; cbn in *. subst. reflexivity. }
+  rewrite Hst.
+  eapply safe_weaken; [apply short_loop_safe; [lia|repeat split; try apply HM; assumption|left; reflexivity]| |auto].
+  intros [[st1 pr] v] [HG1 H1]. split; [exact HG1|].
+  destruct pr; try exact H1; try exact I; try contradiction.
+  destruct H1 as [_ [_ H1]]. contradiction.
+Qed.
+
+(** ** [is_new_arg] *)
+Lemma is_new_arg_safe next a : In a (c_args c) -> exists b, is_new_arg c next a = ROk b.
+Proof.
+  intros Hin. unfold is_new_arg. rewrite (W3 a Hin). cbn [expect rbind].
+  destruct (a_hyphen a || (a_negnum a && pa_is_negative_number next)); [eexists; reflexivity|].
+  destruct (is_long next); [eexists; reflexivity|]. destruct (is_short next); eexists; reflexivity.
+Qed.
+
+(** ** the token loop *)
+Definition lr_ok (lr : loop_res) : Prop :=
+  match lr with
+  | LDone st => G st /\ True
+  | LSub n keep _ st _ => G st /\ keep = false /\ sub_findable n
+  | LExternal _ _ st => G st /\ True
+  | LHelpSub _ st => G st /\ True
+  end.
+
+Lemma to_long_flag tok f ok v : to_long tok = Some (f, ok, v) -> f = [] -> v <> None.
+Proof.
+  unfold to_long. destruct (strip_prefix tok [DASH; DASH]) as [[|b t]|]; try discriminate.
+  destruct (split_once (b :: t) [EQ]) as [[f0 v0]|] eqn:E.
+  - intros H; inversion H; subst. discriminate.
+  - intros H; inversion H; subst. discriminate.
+Qed.
+
+Lemma to_short_nonempty tok r : to_short tok = Some r -> r <> [].
+Proof.
+  unfold to_short. destruct (strip_prefix tok [DASH]) as [r0|]; [|discriminate].
+  destruct (starts_with r0 [DASH]); [discriminate|]. destruct r0; cbn; [discriminate|].
+  intros H; inversion H; discriminate.
+Qed.
+
+Lemma pending_values_push_same m p i idn tr v :
+  mt_pending m = Some p -> p_id p = i -> (idn = None \/ p_ident p = idn) ->
+  exists p', pending_values_push m i idn tr v = Some (m <| mt_pending := Some p' |>)
+             /\ p_id p' = i /\ p_ident p' = p_ident p.
+Proof.
+  intros Hp Hi Hid. subst i. unfold pending_values_push. rewrite Hp. rewrite beq_refl. cbn [negb].
+  replace (is_some idn && negb (ident_eqb (p_ident p) idn)) with false.
+  - eexists. split; [reflexivity|]. cbn. split; reflexivity.
+  - destruct Hid as [->|Hid]; [reflexivity|]. rewrite Hid. destruct idn as [[]|]; reflexivity.
+Qed.
+
+Lemma G_update_pending st p p' : G st -> pending_of st = Some p -> p_id p' = p_id p -> p_ident p' = p_ident p ->
+  G (st <| mt := (mt st) <| mt_pending := Some p' |> |>).
+Proof.
+  intros HG Hp Hid Hident. pose proof HG as [[Hpe _] _]. destruct (Hpe p Hp) as [a [Hf Hi]].
+  eapply G_new_pending; [exact HG|rewrite Hid; exact Hf|rewrite Hident; exact Hi].
+Qed.
+
+Lemma push_pos_safe st a tok trailing : In a (c_args c) -> a_index a <> None -> G st ->
+  (pending_of st = None \/ exists p, pending_of st = Some p /\ p_id p = a_id a) ->
+  exists m1, pending_values_push (mt st) (a_id a) (Some IIndex) trailing (Some tok) = Some m1
+             /\ G (st <| mt := m1 |>).
+Proof.
+  intros Hin Hidx HG [Hn|[p [Hp Hid]]].
+  - rewrite (pending_values_push_new _ _ _ _ _ Hn). eexists. split; [reflexivity|].
+    eapply G_new_pending; [exact HG|cbn; apply W3; exact Hin|left; reflexivity].
+  - pose proof HG as [[Hpe _] _]. destruct (Hpe p Hp) as [a' [Hf Hi]].
+    rewrite Hid, (W3 a Hin) in Hf. inversion Hf; subst a'.
+    assert (Hident : p_ident p = Some IIndex).
+    { destruct Hi as [Hi|Hi]; [exact Hi|]. rewrite (W2 a Hin Hidx) in Hi. discriminate. }
+    destruct (pending_values_push_same (mt st) p (a_id a) (Some IIndex) trailing (Some tok) Hp Hid)
+      as [p' [Hpush [Hid' Hident']]]; [right; exact Hident|].
+    rewrite Hpush. eexists. split; [reflexivity|].
+    eapply G_update_pending; [exact HG|exact Hp|congruence|exact Hident'].
+Qed.
+
+Lemma parse_loop_safe : forall toks ls st, G st -> LI (l_pst ls) st ->
+  safe lr_ok G (parse_loop c toks ls st).
+Proof.
+  induction toks as [|tok rest IH]; intros ls st HG HL; [cbn; split; [exact HG|exact I]|].
+  cbn [parse_loop].
+  (* phase 1 *)
+  match goal with |- safe _ _ (rbind ?ph _) => set (phase1 := ph) end.
+  assert (Hph : safe (fun x => let '(early, ls1, st1) := x in
+                        match early with
+                        | Some r => safe lr_ok G r
+                        | None => G st1 /\ LI (l_pst ls1) st1 /\ l_pst ls1 = l_pst ls end) G phase1).
+  { subst phase1. destruct (l_trailing ls); [cbn; split; [exact HG|split; [exact HL|reflexivity]]|].
+    destruct (if is_set s_sub_precedence c || match l_pst ls with PSValuesDone => true | _ => false end
+              then possible_subcommand c tok (l_vaf ls) else None) as [sc|] eqn:Esub.
+    { assert (Hsc : sub_findable sc).
+      { destruct (is_set s_sub_precedence c || match l_pst ls with PSValuesDone => true | _ => false end);
+          [eapply possible_subcommand_findable; exact Esub|discriminate]. }
+      destruct (beq sc s_help && negb (is_set s_disable_help_sub c)); cbn; [split; [exact HG|exact I]|].
+      split; [exact HG|split; [reflexivity|exact Hsc]]. }
+    (* after_flag *)
+    match goal with |- context [match to_long tok with Some _ => _ | None => _ end] => idtac end.
+    assert (After : forall x, flag_res st x ->
+       safe (fun y => let '(early, ls1, st1) := y in
+                        match early with
+                        | Some r => safe lr_ok G r
+                        | None => G st1 /\ LI (l_pst ls1) st1 /\ l_pst ls1 = l_pst ls end) G
+         (let '(st1, pr, vaf1) := x in
+          let ls1 := mkL (l_pst ls) (l_pos ls) vaf1 false in
+          match pr with
+          | PRValuesDone => ROk (Some (parse_loop c rest (mkL PSValuesDone (l_pos ls) vaf1 false) st1), ls1, st1)
+          | PROpt i => ROk (Some (parse_loop c rest (mkL (PSOpt i) (l_pos ls) vaf1 false) st1), ls1, st1)
+          | PRFlagSub n => ROk (Some (ROk (LSub n false vaf1 st1 rest)), ls1, st1)
+          | PREqualsNotProvided a =>
+              do st2 <- resolve_pending_ignore c st1; ROk (Some (RErr (mkerr c ENoEquals a) st2), ls1, st2)
+          | PRNoMatchingArg a =>
+              do st2 <- resolve_pending_ignore c st1; ROk (Some (RErr (mkerr c EUnknownArgument a) st2), ls1, st2)
+          | PRUnneeded r a =>
+              do st2 <- resolve_pending_ignore c st1; ROk (Some (RErr (mkerr c ETooManyValues a) st2), ls1, st2)
+          | PRMaybeHyphen => ROk (None, ls1, st1)
+          | PRNoArg => ROk (None, ls1, st1)
+          | PRAttachedNotConsumed => RPanic 203
+          end)).
+    { intros [[st1 pr] vaf1] [HG1 Hpr]. cbn zeta.
+      destruct pr; cbn [safe].
+      - destruct Hpr as [Hs _]. split; [exact HG1|split; [reflexivity|exact Hs]].
+      - apply IH; [exact HG1|exact Hpr].
+      - apply IH; [exact HG1|exact I].
+      - contradiction.
+      - eapply safe_bind; [apply resolve_pending_ignore_safe; exact HG1|]. intros st2 HG2. cbn. exact HG2.
+      - subst st1. cbn. split; [exact HG|split; [exact HL|reflexivity]].
+      - eapply safe_bind; [apply resolve_pending_ignore_safe; exact HG1|]. intros st2 HG2. cbn. exact HG2.
+      - eapply safe_bind; [apply resolve_pending_ignore_safe; exact HG1|]. intros st2 HG2. cbn. exact HG2.
+      - subst st1. cbn. split; [exact HG|split; [exact HL|reflexivity]]. }
+    destruct (is_escape tok).
+    { destruct (state_arg_safe (l_pst ls) st HG HL) as [sa [-> _]]. cbn [rbind].
+      destruct (match sa with Some a => a_hyphen a | None => false end); cbn; [split; [exact HG|split; [exact HL|reflexivity]]|].
+      apply IH.
+      - destruct HG as [[Hp [He HP]] [Hfa Hfs]]. unfold start_trailing.
+        destruct (mt_pending (mt st)) as [p|] eqn:Ep; [|apply G_set_mt; [exact (conj Hp (conj He HP))|assumption|assumption]].
+        apply (G_update_pending st p); [exact (conj (conj Hp (conj He HP)) (conj Hfa Hfs))|exact Ep|reflexivity|reflexivity].
+      - cbn. destruct (l_pst ls) as [|i|i]; [exact I| |exact HL].
+        destruct HL as [p [Hp Hi]]. unfold pend_is, pending_of, start_trailing in *. rewrite Hp.
+        eexists. autorewrite with ps. split; [reflexivity|exact Hi]. }
+    destruct (to_long tok) as [[[f ok] v]|] eqn:El.
+    { eapply safe_bind; [apply parse_long_arg_safe; [exact HG|exact HL|intros Hf; eapply to_long_flag; eassumption]|].
+      intros [[st1 pr] vaf1] [Hres Hno]. cbn [fst snd] in *.
+      destruct pr; try (exfalso; apply Hno; reflexivity);
+        (let HA := fresh "HA" in pose proof (After (st1, _, vaf1) Hres) as HA; cbn in HA |- *; exact HA). }
+    destruct (to_short tok) as [r|] eqn:Es; [|cbn; split; [exact HG|split; [exact HL|reflexivity]]].
+    eapply safe_bind; [apply parse_short_arg_safe; [eapply to_short_nonempty; exact Es|exact HG|exact HL]|].
+    intros [[st1 pr] vaf1] [HG1 Hpr].
+    assert (HA : flag_res st (st1, pr, vaf1)).
+    { split; [exact HG1|]. destruct pr; try contradiction; first [exact Hpr|exact I]. }
+    apply After in HA. destruct pr; try contradiction; cbn in HA |- *; exact HA. }
+  eapply safe_bind; [exact Hph|]. clear Hph phase1.
+  intros [[early ls1] st1] H1.
+  destruct early as [r|]; [exact H1|].
+  destruct H1 as [HG1 [HL1 Hpst]].
+  match goal with
+  | |- safe _ _ (match _ with PSValuesDone => ?t | PSOpt _ => _ | PSPos _ => _ end) =>
+      assert (Hpos : safe lr_ok G t)
+  end.
+  { cbn zeta.
+    match goal with |- safe _ _ (rbind ?e _) => assert (Hpc : exists pcv, e = ROk pcv) end.
+    { match goal with |- exists _, (if ?b then _ else _) = _ => destruct b end.
+      - destruct rest as [|n rest']; [eexists; reflexivity|].
+        destruct (List.find _ (positionals c)) as [a|] eqn:Ef; [|eexists; reflexivity].
+        apply List.find_some in Ef. destruct Ef as [Hin _]. unfold positionals in Hin. apply filter_In in Hin.
+        destruct (is_new_arg_safe n a (proj1 Hin)) as [b ->]. cbn. eexists; reflexivity.
+      - match goal with |- exists _, (if ?b then _ else _) = _ => destruct b end; eexists; reflexivity. }
+    destruct Hpc as [pcv ->]. cbn [rbind].
+    destruct (get_pos c pcv) as [a|] eqn:Eg.
+    - destruct (get_pos_in _ _ _ Eg) as [Hin Hidx].
+      destruct (a_last a && negb (l_trailing ls1)).
+      + eapply safe_bind; [apply resolve_pending_ignore_safe; exact HG1|]. intros s2 HG2. exact HG2.
+      + match goal with |- safe _ _ (rbind (if ?b then _ else _) _) => destruct b eqn:Eb end.
+        * eapply safe_bind; [apply resolve_pending_safe; exact HG1|]. intros s2 [HG2 Hp2].
+          destruct (check_terminator a tok); [apply IH; [exact HG2|exact I]|].
+          destruct (push_pos_safe s2 a tok (l_trailing ls1 || a_tva a) Hin Hidx HG2 (or_introl Hp2)) as [m1 [Hpush HGm]].
+          rewrite Hpush. cbn [expect rbind].
+          destruct (negb (a_is_multiple a)); apply IH; try exact HGm; cbn; [exact I|].
+          exists a. apply W3; exact Hin.
+        * cbn [rbind].
+          assert (Hpend : exists p, pending_of st1 = Some p /\ p_id p = a_id a).
+          { apply Bool.orb_false_elim in Eb. destruct Eb as [E1 _]. apply Bool.negb_false_iff in E1.
+            unfold pending_arg_id, pending_of in *. destruct (mt_pending (mt st1)) as [p|]; cbn in E1; [|discriminate].
+            exists p. split; [reflexivity|]. apply beq_eq in E1. exact E1. }
+          destruct (check_terminator a tok); [apply IH; [exact HG1|exact I]|].
+          destruct (push_pos_safe st1 a tok (l_trailing ls1 || a_tva a) Hin Hidx HG1 (or_intror Hpend)) as [m1 [Hpush HGm]].
+          rewrite Hpush. cbn [expect rbind].
+          destruct (negb (a_is_multiple a)); apply IH; try exact HGm; cbn; [exact I|].
+          exists a. apply W3; exact Hin.
+    - destruct (is_set s_allow_external c).
+      + destruct (utf8_valid tok); [cbn; split; [exact HG1|exact I]|].
+        eapply safe_bind; [apply resolve_pending_ignore_safe; exact HG1|]. intros s2 HG2. exact HG2.
+      + eapply safe_bind; [apply resolve_pending_ignore_safe; exact HG1|]. intros s2 HG2. exact HG2. }
+  destruct (if l_trailing ls1 then PSValuesDone else l_pst ls1) eqn:Est.
+  - exact Hpos.
+  - (* an option is collecting values *)
+    assert (Hi : l_trailing ls1 = false /\ l_pst ls1 = PSOpt i) by (destruct (l_trailing ls1); [discriminate|split; [reflexivity|exact Est]]).
+    destruct Hi as [Htr Hpst1]. rewrite Hpst1 in HL1. destruct HL1 as [p [Hp Hid]].
+    pose proof HG1 as [[Hpe _] _]. destruct (Hpe p Hp) as [a [Hf _]]. rewrite Hid in Hf. rewrite Hf. cbn [expect rbind].
+    destruct (find_arg_some _ _ _ Hf) as [Hin _].
+    destruct (check_terminator a tok); [apply IH; [exact HG1|exact I]|].
+    destruct (pending_values_push_same (mt st1) p i None false (Some tok) Hp Hid) as [p' [Hpush [Hid' Hident']]];
+      [left; reflexivity|].
+    rewrite Hpush. cbn [expect rbind]. unfold needs_more_vals.
+    destruct (W1 a Hin) as [_ [Hn _]]. destruct (a_num a) as [r|]; [|contradiction]. cbn [expect rbind].
+    apply IH.
+    + eapply G_update_pending; [exact HG1|exact Hp|congruence|exact Hident'].
+    + cbn. match goal with |- LI (if ?b then _ else _) _ => destruct b end; [|exact I].
+      eexists. unfold pending_of. autorewrite with ps. split; [reflexivity|exact Hid'].
+  - exact Hpos.
+Qed.
+
+(** ** the environment and default phases *)
+Lemma fold_res_safe {A} (step : res ps -> A -> res ps) (l : list A) (Q : A -> Prop) :
+  (forall x, In x l -> Q x) ->
+  (forall acc x, Q x -> safe G G acc -> safe G G (step acc x)) ->
+  forall acc, safe G G acc -> safe G G (fold_left step l acc).
+Proof.
+  intros HQ Hstep. induction l as [|x t IH]; intros acc Hacc; cbn [fold_left]; [exact Hacc|].
+  apply IH; [intros y Hy; apply HQ; right; exact Hy|]. apply Hstep; [apply HQ; left; reflexivity|exact Hacc].
+Qed.
+
+Lemma add_env_safe st : G st -> safe G G (add_env c st).
+Proof.
+  intros HG. unfold add_env.
+  apply (fold_res_safe _ (c_args c) (fun a => In a (c_args c))); [auto| |exact HG].
+  intros acc a Hin Hacc. eapply safe_bind; [exact Hacc|]. intros s HGs.
+  destruct (mt_contains (mt s) (a_id a)); [exact HGs|].
+  destruct (a_env a) as [v|]; [|exact HGs].
+  eapply safe_bind; [apply react_safe; eassumption|]. intros x [Hx _]. exact Hx.
+Qed.
+
+Lemma add_default_value_safe a st : In a (c_args c) -> G st -> safe G G (add_default_value c a st).
+Proof.
+  intros Hin HG. unfold add_default_value.
+  assert (Plain : safe G G (if negb (is_nil (a_default a)) then
+                              if mt_contains (mt st) (a_id a) then ROk st
+                              else do x <- react c None SDefault a (a_default a) None st; ROk (fst x)
+                            else ROk st)).
+  { destruct (negb (is_nil (a_default a))); [|exact HG]. destruct (mt_contains (mt st) (a_id a)); [exact HG|].
+    eapply safe_bind; [apply react_safe; eassumption|]. intros x [Hx _]. exact Hx. }
+  destruct (negb (is_nil (a_default_ifs a)) && negb (mt_contains (mt st) (a_id a))); [|exact Plain].
+  destruct (List.find _ (a_default_ifs a)) as [[[i p] [d|]]|]; [|exact HG|exact Plain].
+  eapply safe_bind; [apply react_safe; eassumption|]. intros x [Hx _]. exact Hx.
+Qed.
+
+Lemma add_defaults_safe st : G st -> safe G G (add_defaults c st).
+Proof.
+  intros HG. unfold add_defaults.
+  apply (fold_res_safe _ (c_args c) (fun a => In a (c_args c))); [auto| |exact HG].
+  intros acc a Hin Hacc. eapply safe_bind; [exact Hacc|]. intros s HGs. apply add_default_value_safe; assumption.
+Qed.
+
+(** ** storing the subcommand's matches does not disturb the invariant *)
+Lemma G_set_sub st sub : G st -> G (st <| mt := (mt st) <| mt_sub := sub |> |>).
+Proof. intros [[Hp [He HP]] [Hfa Hfs]]. repeat split; assumption. Qed.
+
+Lemma G_ps_new : P [] 0 -> G ps_new.
+Proof.
+  intros HP. repeat split; cbn; try assumption; try reflexivity.
+  - intros p Hp. discriminate.
+  - intros i m [].
+Qed.
 End Level.
+
+(** * the external-subcommand capture never hits its [expect] *)
+Lemma external_fill_safe c vp st : forall vals (acc : res matcher),
+  (match acc with ROk m => exists ma, fm_get ext_id (mt_args m) = Some ma /\ m_raw ma <> []
+                | RErr _ s => s = st | RPanic _ => False end) ->
+  match fold_left (fun rm v => do m <- rm;
+                      match vp_parse vp v with
+                      | Some k => RErr (mkerr c k []) st
+                      | None => expect 458 (add_val_to m ext_id v)
+                      end) vals acc with
+  | ROk _ => True | RErr _ s => s = st | RPanic _ => False end.
+Proof.
+  induction vals as [|v t IH]; intros acc Hacc; cbn [fold_left]; [destruct acc; auto|].
+  apply IH. destruct acc as [m|e s|x]; cbn [rbind]; [|exact Hacc|exact Hacc].
+  destruct (vp_parse vp v); [reflexivity|].
+  destruct Hacc as [ma [Hg Hr]]. unfold add_val_to. rewrite Hg.
+  destruct (append_val_open v ma Hr) as [m' [Ha [Hr' _]]]. rewrite Ha. cbn.
+  eexists. autorewrite with ps. rewrite fm_get_update, Hg, beq_refl. split; [reflexivity|exact Hr'].
+Qed.
